@@ -49,6 +49,7 @@ type RelayCase struct {
 	Targets int       `json:"targets"`
 	TunnelDom bool    `json:"tunnel_dom,omitempty"` // direct server: tunnelRemoteAddress is a domain name
 	Ops     []RelayOp `json:"ops"`
+	Family  string    `json:"family,omitempty"` // "" = IPv4 listener on 127.0.0.1; "wild4" = 0.0.0.0 (pktinfo); "dual" = [::] with IPv4-mapped and IPv6 clients + an IPv6 target
 	Flood   int       `json:"flood,omitempty"` // concurrent phase: datagrams per client (0 = none)
 	Seed    uint64    `json:"seed"`
 }
@@ -65,9 +66,13 @@ func genRelayCase(r *common.Rng, idx int) RelayCase {
 		{"none", "no"}, {"ss2022", "sendmmsg"}, {"socks5", "no"}}
 	g := sched[(idx/4)%len(sched)]
 	c.Client, c.Batch = g[0], g[1]
+	c.Family = []string{"", "wild4", "dual"}[(idx/4+idx/32)%3]
 	c.Clients = r.Range(2, 4)
 	c.Targets = r.Range(2, 3)
 	c.TunnelDom = r.Bool()
+	if c.Family == "dual" {
+		c.Targets++ // the last target is [::1]
+	}
 	n := r.Range(8, 30)
 	sends := 0
 	for i := 0; i < n; i++ {
@@ -101,7 +106,7 @@ func genRelayCase(r *common.Rng, idx int) RelayCase {
 
 func relaySig(c RelayCase) string {
 	var sb strings.Builder
-	fmt.Fprintf(&sb, "%s>%s/%s c%d t%d f%d %v", c.Server, c.Client, c.Batch, c.Clients, c.Targets, c.Flood, c.TunnelDom)
+	fmt.Fprintf(&sb, "%s>%s/%s%s c%d t%d f%d %v", c.Server, c.Client, c.Batch, c.Family, c.Clients, c.Targets, c.Flood, c.TunnelDom)
 	for _, o := range c.Ops {
 		fmt.Fprintf(&sb, " %s%d.%d.%v.%d.%d.%v", o.Op[:1], o.C, o.T, o.Dom, o.J, o.G, o.Fresh)
 	}
@@ -161,7 +166,11 @@ func (g *sockGroup) close() {
 }
 
 func listenLoop(ip string, port int) (*net.UDPConn, error) {
-	return net.ListenUDP("udp4", &net.UDPAddr{IP: net.ParseIP(ip), Port: port})
+	network := "udp4"
+	if strings.Contains(ip, ":") {
+		network = "udp6"
+	}
+	return net.ListenUDP(network, &net.UDPAddr{IP: net.ParseIP(ip), Port: port})
 }
 
 // ---------- wire formats spoken by the harness (written from the protocol documents, not from the repo) ----------
@@ -180,10 +189,14 @@ func (a tAddr) String() string {
 }
 
 func appendSocksAddr(b []byte, a tAddr) []byte {
-	if a.ip.IsValid() {
+	if a.ip.IsValid() && a.ip.Is4() {
 		b = append(b, 1)
 		ip4 := a.ip.As4()
 		b = append(b, ip4[:]...)
+	} else if a.ip.IsValid() {
+		b = append(b, 4)
+		ip16 := a.ip.As16()
+		b = append(b, ip16[:]...)
 	} else {
 		b = append(b, 3, byte(len(a.name)))
 		b = append(b, a.name...)
@@ -265,11 +278,18 @@ var upstreamPSK = []byte("fedcba9876543210")
 const relayCap = 64
 
 func startRelay(c RelayCase, tunnel conn.Addr, upstream, upstreamTCP netip.AddrPort) (*relayProc, error) {
+	lnNet, lnAddr := "udp4", "127.0.0.1:0"
+	switch c.Family {
+	case "wild4":
+		lnAddr = "0.0.0.0:0"
+	case "dual":
+		lnNet, lnAddr = "udp", "[::]:0"
+	}
 	sc := service.ServerConfig{
 		Name: "s",
 		MTU:  1500,
 		UDPListeners: []service.UDPListenerConfig{{
-			ListenerConfig: service.ListenerConfig{Network: "udp4", Address: "127.0.0.1:0"},
+			ListenerConfig: service.ListenerConfig{Network: lnNet, Address: lnAddr},
 			UDPPerfConfig:  service.UDPPerfConfig{BatchMode: c.Batch, SendChannelCapacity: relayCap},
 			NATTimeout:     jsoncfg.Duration(5 * time.Minute),
 		}},
@@ -392,6 +412,7 @@ type relayRun struct {
 	sidClient []int // observed session -> owning client
 	sidSock   []int // observed session -> socket its latest accepted datagram came from
 	sockOwner map[int]int
+	sockRelay map[int]netip.AddrPort
 	plData    map[int][]byte
 	keyToSid  map[int]int
 	stallN    int
@@ -408,12 +429,43 @@ func (x *relayRun) fail(key, detail string) {
 	x.fails = append(x.fails, common.OracleFailure{Engine: "udprelay", Key: "udprelay:" + x.c.Server + ">" + x.c.Client + ":" + key, Case: x.c, Detail: detail})
 }
 
-func (x *relayRun) newClientSocket() (int, error) {
-	s, err := listenLoop("127.0.0.1", 0)
+// clientV6: in the dual-stack family every second client is an IPv6 client (the others reach the [::] listener
+// over IPv4 and appear there as IPv4-mapped addresses).
+func (x *relayRun) clientV6(ci int) bool { return x.c.Family == "dual" && ci%2 == 1 }
+
+// relayAddrFor: the local address of the relay that client ci speaks to. With a wildcard listener every client
+// uses a different one, and the relay must answer FROM it (pktinfo).
+func (x *relayRun) relayAddrFor(ci int) netip.AddrPort {
+	port := x.relay.addr.Port()
+	switch {
+	case x.clientV6(ci):
+		return netip.AddrPortFrom(netip.MustParseAddr("::1"), port)
+	case x.c.Family != "":
+		return netip.AddrPortFrom(netip.AddrFrom4([4]byte{127, 0, 0, byte(40 + ci)}), port)
+	}
+	return x.relay.addr
+}
+
+func (x *relayRun) newClientSocket(ci int) (int, error) {
+	ip := "127.0.0.1"
+	if x.clientV6(ci) {
+		ip = "::1"
+	}
+	s, err := listenLoop(ip, 0)
 	if err != nil {
 		return 0, err
 	}
-	return x.cg.add(s), nil
+	idx := x.cg.add(s)
+	x.sockRelay[idx] = x.relayAddrFor(ci)
+	return idx, nil
+}
+
+// checkReplyFrom: the reply comes from the relay address the client sent to (the code stores the received
+// IP_PKTINFO / IPV6_PKTINFO control message and attaches it to every reply).
+func (x *relayRun) checkReplyFrom(d dgram) {
+	if want, ok := x.sockRelay[d.sock]; ok && d.from != want {
+		x.fail("reply-from-wrong-local-address", fmt.Sprintf("reply at client socket %d came from %s, the client speaks to %s", d.sock, d.from, want))
+	}
 }
 
 func (x *relayRun) setup() error {
@@ -423,6 +475,7 @@ func (x *relayRun) setup() error {
 	x.sockOwner = map[int]int{}
 	x.keyToSid = map[int]int{}
 	x.plData = map[int][]byte{}
+	x.sockRelay = map[int]netip.AddrPort{}
 	x.nextPl = 1000
 	// targets: same port on 127.0.0.(20+i), so that a datagram sent to another session's resolved
 	// address still lands on a monitored socket
@@ -434,13 +487,23 @@ func (x *relayRun) setup() error {
 		port := first.LocalAddr().(*net.UDPAddr).Port
 		socks := []*net.UDPConn{first}
 		ok := true
-		for i := 1; i < x.c.Targets; i++ {
+		nt := x.c.Targets
+		if x.c.Family == "dual" {
+			nt-- // the last one is the IPv6 target
+		}
+		for i := 1; i < nt; i++ {
 			s, err := listenLoop(fmt.Sprintf("127.0.0.%d", 20+i), port)
 			if err != nil {
 				ok = false
 				break
 			}
 			socks = append(socks, s)
+		}
+		var s6 *net.UDPConn
+		if ok && x.c.Family == "dual" {
+			if s6, err = listenLoop("::1", port); err != nil {
+				ok = false
+			}
 		}
 		if ok {
 			x.tport = uint16(port)
@@ -449,6 +512,10 @@ func (x *relayRun) setup() error {
 				a := netip.MustParseAddr(fmt.Sprintf("127.0.0.%d", 20+i))
 				x.taddrs = append(x.taddrs, a)
 				x.dns.set(tname(i), a)
+			}
+			if s6 != nil {
+				x.tg.add(s6)
+				x.taddrs = append(x.taddrs, netip.MustParseAddr("::1"))
 			}
 			break
 		}
@@ -495,7 +562,7 @@ func (x *relayRun) setup() error {
 		return err
 	}
 	for i := 0; i < x.c.Clients; i++ {
-		s, err := x.newClientSocket()
+		s, err := x.newClientSocket(i)
 		if err != nil {
 			return err
 		}
@@ -506,7 +573,7 @@ func (x *relayRun) setup() error {
 			if err != nil {
 				return err
 			}
-			uc := ss2022.NewUDPClient("h", "ip4", conn.AddrFromIPPort(x.relay.addr), 1500, conn.DefaultUDPClientListenConfig, 0, cc, ss2022.PadPlainDNS)
+			uc := ss2022.NewUDPClient("h", "ip4", conn.AddrFromIPPort(x.relayAddrFor(i)), 1500, conn.DefaultUDPClientListenConfig, 0, cc, ss2022.PadPlainDNS)
 			info, sess, err := uc.NewSession(context.Background())
 			if err != nil {
 				return err
@@ -660,7 +727,7 @@ func (x *relayRun) targetAddr(t int, dom bool) tAddr {
 	if x.c.Server == "direct" {
 		t, dom = 0, x.c.TunnelDom
 	}
-	if dom {
+	if dom && x.taddrs[t].Is4() { // the harness's DNS has A records only: the IPv6 target is always named by address
 		return tAddr{name: tname(t), port: x.tport}
 	}
 	return tAddr{ip: x.taddrs[t], port: x.tport}
@@ -727,7 +794,15 @@ func (x *relayRun) decode(hc *hClient, d dgram) (src string, payload []byte, err
 
 const waitDatagram = 5 * time.Second
 
-func ipNat(a netip.Addr) uint32 { return addrU32(a) }
+// ipNat: the model's name of an address (IPv4: its 32 bits; IPv6 loopback-style addresses: 6000000000 + last byte).
+func ipNat(a netip.Addr) uint64 {
+	a = a.Unmap()
+	if a.Is4() {
+		return uint64(addrU32(a))
+	}
+	b := a.As16()
+	return 6000000000 + uint64(b[15])
+}
 
 func (x *relayRun) clientKey(ci int) int {
 	if x.c.Server == "ss2022" {
@@ -808,7 +883,7 @@ func (x *relayRun) opSend(o RelayOp) {
 		tl = fmt.Sprintf("ip %d %d %d", ipNat(ta.ip), x.tport, pl)
 	}
 	x.script = append(x.script, fmt.Sprintf("recv %d %d %s", key, hc.sock, tl))
-	if _, err := x.cg.get(hc.sock).WriteToUDPAddrPort(wire, x.relay.addr); err != nil {
+	if _, err := x.cg.get(hc.sock).WriteToUDPAddrPort(wire, x.sockRelay[hc.sock]); err != nil {
 		x.fail("harness-write", err.Error())
 	}
 	gotT, from, gotPl, innerDom, ok := x.nextAtTargets()
@@ -847,7 +922,7 @@ func (x *relayRun) opSend(o RelayOp) {
 		return
 	}
 	ans := "-"
-	obsIP := uint32(0)
+	obsIP := uint64(0)
 	if gotT >= 0 {
 		obsIP = ipNat(x.taddrs[gotT])
 	}
@@ -872,6 +947,9 @@ func (x *relayRun) opReply(o RelayOp) {
 	data := x.payload(pl)
 	src := netip.AddrPortFrom(x.taddrs[o.T], x.tport)
 	dst := netip.AddrPortFrom(netip.MustParseAddr("127.0.0.1"), x.sidPort[sid])
+	if !x.viaUpstream() && !x.taddrs[o.T].Is4() {
+		dst = netip.AddrPortFrom(netip.MustParseAddr("::1"), x.sidPort[sid])
+	}
 	if x.viaUpstream() {
 		// the upstream proxy answers with the source inside
 		var err error
@@ -890,6 +968,7 @@ func (x *relayRun) opReply(o RelayOp) {
 	case d := <-x.cg.ch:
 		// which client owns the socket it arrived at?
 		hc := x.clients[owner]
+		x.checkReplyFrom(d)
 		s, payload, err := x.decode(hc, d)
 		if err != nil {
 			x.impl = append(x.impl, "undecodable")
@@ -935,6 +1014,9 @@ func (x *relayRun) opReplyBurst(o RelayOp) {
 	sid := o.J % len(x.sidPort)
 	if x.sidPort[sid] == 0 {
 		return
+	}
+	if !x.viaUpstream() && !x.taddrs[o.T].Is4() {
+		return // the burst is written with the IPv4 batch API
 	}
 	owner := x.sidClient[sid]
 	src := netip.AddrPortFrom(x.taddrs[o.T], x.tport)
@@ -1035,6 +1117,7 @@ func (x *relayRun) opReplyBurst(o RelayOp) {
 		if wait == 0 {
 			break
 		}
+		x.checkReplyFrom(d)
 		s, payload, err := x.decode(hc, d)
 		if err != nil {
 			x.fail("reply-undecodable", fmt.Sprintf("reply burst: datagram at client socket %d does not decode with the owner's session: %v", d.sock, err))
@@ -1145,7 +1228,7 @@ func (x *relayRun) opGarbage(o RelayOp) {
 	}
 	x.script = append(x.script, fmt.Sprintf("recv %d %d none", key, sock))
 	x.impl = append(x.impl, "noop")
-	if _, err := x.cg.get(sock).WriteToUDPAddrPort(g, x.relay.addr); err != nil {
+	if _, err := x.cg.get(sock).WriteToUDPAddrPort(g, x.sockRelay[sock]); err != nil {
 		x.fail("harness-write", err.Error())
 	}
 }
@@ -1169,7 +1252,7 @@ func (x *relayRun) opBurst(o RelayOp) {
 	time.Sleep(20 * time.Millisecond)
 	g0, f0 := runtime.NumGoroutine(), countFDs()
 	hc := x.clients[o.C]
-	fresh, err := x.newClientSocket() // +1 fd, +1 goroutine of the harness itself
+	fresh, err := x.newClientSocket(o.C) // +1 fd, +1 goroutine of the harness itself
 	if err != nil {
 		return
 	}
@@ -1189,7 +1272,7 @@ func (x *relayRun) opBurst(o RelayOp) {
 		}
 		x.script = append(x.script, fmt.Sprintf("recv %d %d none", key, sock))
 		x.impl = append(x.impl, "noop")
-		x.cg.get(sock).WriteToUDPAddrPort(g, x.relay.addr)
+		x.cg.get(sock).WriteToUDPAddrPort(g, x.sockRelay[sock])
 	}
 	x.opSend(RelayOp{Op: "send", C: o.C, T: 0})
 	deadline := time.Now().Add(3 * time.Second)
@@ -1210,7 +1293,7 @@ func (x *relayRun) opBurst(o RelayOp) {
 // PackInPlace, the send channel fills up to its capacity and the rest is dropped; after the release
 // exactly the packet in flight plus the queued ones leave, in order, to the resolved address.
 func (x *relayRun) opStall(o RelayOp) {
-	if x.c.Client != "direct" || x.c.Server == "direct" || len(x.clients) < 2 {
+	if x.c.Client != "direct" || x.c.Server == "direct" || len(x.clients) < 2 || !x.taddrs[o.T].Is4() {
 		return
 	}
 	hc := x.clients[o.C]
@@ -1258,7 +1341,7 @@ func (x *relayRun) opStall(o RelayOp) {
 		hc.lastPkt = wire
 		x.script = append(x.script, fmt.Sprintf("recv %d %d %s", key, hc.sock, tl))
 		x.impl = append(x.impl, "*")
-		x.cg.get(hc.sock).WriteToUDPAddrPort(wire, x.relay.addr)
+		x.cg.get(hc.sock).WriteToUDPAddrPort(wire, x.sockRelay[hc.sock])
 		return true
 	}
 	sendOne := func() bool { return sendKind(0) }
@@ -1384,7 +1467,7 @@ func (x *relayRun) opStall(o RelayOp) {
 }
 
 func (x *relayRun) opMove(o RelayOp) {
-	s, err := x.newClientSocket()
+	s, err := x.newClientSocket(o.C)
 	if err != nil {
 		x.fail("harness-socket", err.Error())
 		return
@@ -1461,7 +1544,7 @@ func (x *relayRun) flood() (sent, arrived, echoed int) {
 		}
 	}
 	for i, w := range wires {
-		x.cg.get(socks[i]).WriteToUDPAddrPort(w, x.relay.addr)
+		x.cg.get(socks[i]).WriteToUDPAddrPort(w, x.sockRelay[socks[i]])
 		sent++
 		if i%16 == 15 {
 			time.Sleep(200 * time.Microsecond)
@@ -1529,6 +1612,7 @@ loop:
 				x.fail("reply-to-wrong-address", fmt.Sprintf("under concurrency: reply at socket %d, which is not the address any flooding client sends from", d.sock))
 				continue
 			}
+			x.checkReplyFrom(d)
 			s, payload, err := x.decode(x.clients[owner], d)
 			if err != nil {
 				x.fail("reply-undecodable", fmt.Sprintf("under concurrency: reply at client %d does not decode: %v", owner, err))
